@@ -3,6 +3,7 @@ package main
 import (
 	"fmt"
 	"go/types"
+	"regexp"
 	"strings"
 
 	"golang.org/x/tools/go/ssa"
@@ -17,6 +18,17 @@ func ruleStreamLayersReadOnly(c *Ctx) {
 	R := c.R
 	R.Rule("R-stream-layers-readonly", "E4 parameter effect", "every Write([]byte) method defined in the package leaves the slice it is handed unmodified (io.Writer contract; io.TeeReader shares that buffer with the reader), and lineLimitReader.Read stores into the caller's buffer only through the wrapped reader's Read", 2)
 	n := 0
+	// package types that init() puts between the socket and textproto (converted to an io interface there)
+	layerTypes := map[string]bool{"lineLimitReader": true}
+	if f := c.A.Func("(*Conn).init"); f != nil {
+		allInstrs(f, func(in ssa.Instruction) {
+			if mi, ok := in.(*ssa.MakeInterface); ok {
+				if nt, ok := derefType(mi.X.Type()).(*types.Named); ok && nt.Obj().Pkg() != nil && nt.Obj().Pkg().Path() == smtpPath {
+					layerTypes[nt.Obj().Name()] = true
+				}
+			}
+		})
+	}
 	for _, f := range c.P.AllFuncs() {
 		if !inSmtp(f) || f.Blocks == nil || f.Signature.Recv() == nil || f.Parent() != nil {
 			continue
@@ -24,8 +36,9 @@ func ruleStreamLayersReadOnly(c *Ctx) {
 		if strings.HasSuffix(f.Name(), "$bound") || strings.HasSuffix(f.Name(), "$thunk") {
 			continue
 		}
+		rt, _ := derefType(f.Signature.Recv().Type()).(*types.Named)
 		isW := f.Name() == "Write" && byteSliceIO(f.Signature)
-		isR := funcName(f) == "(*lineLimitReader).Read" && byteSliceIO(f.Signature)
+		isR := f.Name() == "Read" && byteSliceIO(f.Signature) && rt != nil && layerTypes[rt.Obj().Name()]
 		if !isW && !isR {
 			continue
 		}
@@ -37,9 +50,33 @@ func ruleStreamLayersReadOnly(c *Ctx) {
 			what = "buffer filled only by the wrapped reader"
 		}
 		R.Ob(funcName(f)+"/"+what, c.P.Pos(f.Pos()), why == "", why)
+		if isR {
+			// ... and the count handed up is the wrapped reader's count (or 0 with an error): a layer that reports fewer
+			// or more octets than were read drops or invents message octets
+			var bad []string
+			allInstrs(f, func(in ssa.Instruction) {
+				r, ok := in.(*ssa.Return)
+				if !ok || in.Block() == f.Recover {
+					return
+				}
+				rv := returnedValues(r)
+				if len(rv) != 2 {
+					return
+				}
+				for _, l := range leafSources(rv[0]) {
+					if l == "0" || layerInnerCount.MatchString(l) {
+						continue
+					}
+					bad = append(bad, l)
+				}
+			})
+			R.Ob(funcName(f)+"/count is the wrapped reader's count", c.P.Pos(f.Pos()), len(bad) == 0, fmt.Sprintf("%s can report a count of %v octets: not what the wrapped reader delivered", funcName(f), dedup(bad)))
+		}
 	}
 	R.Ob("stream layers/found", "-", n >= 2, fmt.Sprintf("%d Write/Read layer methods analysed", n))
 }
+
+var layerInnerCount = regexp.MustCompile(`^invoke:[A-Za-z.]*Read#0$`)
 
 func byteSliceIO(sig *types.Signature) bool {
 	if sig.Params().Len() != 1 || sig.Results().Len() != 2 {
